@@ -185,6 +185,8 @@ inductive Src (α : Type) where
   | chain (xss : List (List α))     -- several iterables: `it.chain`
   | const (v : α)                   -- one non-iterable: `it.repeat` (for `thub`: the object itself)
   | obj (j : Nat)                   -- an existing Stream (moved) or StreamTeeHub (one use)
+  /-- several iterables, one of them an existing object: `Stream(pre, x_j, post)`, `s.append(pre, x_j, post)` -/
+  | mixed (pre : List α) (j : Nat) (post : List α)
 
 inductive Op (α : Type) where
   | new (s : Src α)
@@ -235,6 +237,16 @@ def mkSrc (st : St α) : Src α → Except String (St α × It α)
       match uses.getLast? with
       | none => .error "IndexError"
       | some u => .ok (⟨st.heap, st.pool.set j (.hub uses.dropLast)⟩, u)
+    | _ => .error "noobj"
+  -- every argument is asked for its iterator when the call is made (the use of a hub is taken
+  -- by the call, as for a single argument); the real `it.chain(*args)` asks lazily: finding D16
+  | .mixed pre j post =>
+    match st.pool[j]? with
+    | some (.stream it) => .ok (⟨st.heap, st.pool.set j .dead⟩, .chain (.src pre) (.chain it (.src post)))
+    | some (.hub uses) =>
+      match uses.getLast? with
+      | none => .error "IndexError"
+      | some u => .ok (⟨st.heap, st.pool.set j (.hub uses.dropLast)⟩, .chain (.src pre) (.chain u (.src post)))
     | _ => .error "noobj"
 
 /-- the object the method works on: a Stream itself, or `Stream(hub)` (one use popped)
